@@ -404,6 +404,62 @@ fn val() -> impl Strategy<Value = Val> {
     ]
 }
 
+fn long_case() -> impl Strategy<Value = Case> {
+    (tx_spec(), 0u8..5, prop::sample::select(vec![255usize, 256, 257, 1023, 1024, 1025, 1026, 2049, 5000]), any::<u16>()).prop_map(|(mut t, which, n, cut)| {
+        match which {
+            0 => {
+                let mut k = 0u16;
+                while t.inputs.len() < n {
+                    k = k.wrapping_add(1);
+                    let mut id = [0x5a; 32];
+                    id[0] = (k >> 8) as u8;
+                    id[1] = k as u8;
+                    t.inputs.push(InSpec::CoinSigned { utxo: UtxoSpec(B32(id), k), owner: B32([3; 32]), amount: k as u64, asset: B32([0; 32]), txp: TxpSpec(0, 0), wit: 0 });
+                }
+            }
+            1 => {
+                while t.outputs.len() < n {
+                    let k = t.outputs.len() as u64;
+                    t.outputs.push(OutSpec::Coin { to: B32([4; 32]), amount: k, asset: B32([0; 32]) });
+                }
+            }
+            2 => {
+                while t.witnesses.len() < n {
+                    let k = t.witnesses.len() as u8;
+                    t.witnesses.push(HexBytes(vec![k]));
+                }
+            }
+            _ => match &mut t.body {
+                BodySpec::Create { slots, .. } => {
+                    let mut k = 0u16;
+                    while slots.len() < n {
+                        k += 1;
+                        let mut key = [0u8; 32];
+                        key[30] = (k >> 8) as u8;
+                        key[31] = k as u8;
+                        slots.push((B32(key), B32([k as u8; 32])));
+                    }
+                    slots.sort();
+                    slots.dedup_by(|a, b| a.0 == b.0);
+                }
+                BodySpec::Upload { proof, .. } => {
+                    while proof.len() < n {
+                        let k = proof.len() as u8;
+                        proof.push(B32([k; 32]));
+                    }
+                }
+                _ => {
+                    while t.witnesses.len() < n {
+                        let k = t.witnesses.len() as u8;
+                        t.witnesses.push(HexBytes(vec![k, 1]));
+                    }
+                }
+            },
+        }
+        Case { val: Val::Tx { tx: AnyTx::Charge(t), precompute: false }, junk: HexBytes(vec![1, 2, 3]), cut }
+    })
+}
+
 fn case() -> impl Strategy<Value = Case> {
     (val(), small_bytes().prop_map(HexBytes), any::<u16>()).prop_map(|(val, junk, cut)| Case { val, junk, cut })
 }
@@ -468,6 +524,7 @@ pub fn property() -> Property {
         ],
         parts: vec![
             enum_part("lattice", "variant x policy mask x length-class-mod-8 lattice, see rule", true, |_c: &Ctx, shard, nshards, sink: &mut dyn FnMut(Case) -> bool| lattice(shard, nshards, sink), check),
+            gen_part("long-vectors", "a transaction with one element vector (inputs, outputs, witnesses, storage slots, proof set) of 255..=5000 elements", (400, 8_000), |_c: &Ctx| long_case(), |c: &Case, obs: &mut Obs| { obs.class("long-vector"); check(c, obs) }),
             gen_part("random", "random G-TX values of all listed types with junk suffix and cut selector", (1_500_000, 40_000_000), |_c: &Ctx| case(), check),
         ],
         floors: vec![("random", "nontrivial", 0.30), ("random", "ref-layout-ok", 0.60)],
